@@ -47,7 +47,9 @@ class ObsTransport(TCPTransport):
         TCPTransport._onMessageReceived(self, node, message)
 
     def _onNodeConnected(self, node):
-        if SIM is not None:
+        if SIM is not None and self._selfNode is None:
+            SIM.events.append((CLK.now, 'ro', 'CONN', node.id))
+        elif SIM is not None:
             SIM.events.append((CLK.now, self._selfNode.address, 'CONN', node.id))
             SIM.conn_events[(self._selfNode.address, node.id)].append('C')
             SIM.on_connected(self, node)
@@ -55,9 +57,21 @@ class ObsTransport(TCPTransport):
 
     def _onNodeDisconnected(self, node):
         if SIM is not None:
-            SIM.events.append((CLK.now, self._selfNode.address, 'DISC', node.id))
-            SIM.conn_events[(self._selfNode.address, node.id)].append('D')
+            SIM.events.append((CLK.now, self._selfNode.address if self._selfNode is not None else 'ro', 'DISC', node.id))
+            SIM.conn_events[(self._selfNode.address if self._selfNode is not None else 'ro', node.id)].append('D')
+            if self._selfNode is None:
+                SIM.ro_disc.append((CLK.now, self._syncObj, node.id))
         TCPTransport._onNodeDisconnected(self, node)
+
+    def _onReadonlyNodeConnected(self, node):
+        if SIM is not None:
+            SIM.events.append((CLK.now, self._selfNode.address, 'RO-CONN', node.id))
+        TCPTransport._onReadonlyNodeConnected(self, node)
+
+    def _onReadonlyNodeDisconnected(self, node):
+        if SIM is not None:
+            SIM.events.append((CLK.now, self._selfNode.address, 'RO-DISC', node.id))
+        TCPTransport._onReadonlyNodeDisconnected(self, node)
 
 
 class Cnt(SyncObj):
@@ -225,7 +239,12 @@ class E2Sim(object):
         self.x_removed_requested = False
         self.x_added_requested = False
         self.mship_results = []
+        self.ro = ['10.0.0.%d:0' % (21 + k) for k in range(cfg.get('n_ro', 0))]      # keys of read-only nodes (they have no address)
+        self.ro_disc = []
+        self.stable_leader = None
         for a in self.addrs:
+            self.start(a)
+        for a in self.ro:
             self.start(a)
         if self.outsider in ('stranger', 'removed'):
             self.extra.append(self.X)
@@ -281,12 +300,15 @@ class E2Sim(object):
                     j._destroy()          # the dead incarnation's mapping of the journal file
             except Exception:
                 pass
-        self.objs[a] = Cnt(a, self.partners_of(a), self.conf(a))
+        if a in getattr(self, 'ro', ()):
+            self.objs[a] = Cnt(None, list(self.addrs), self.conf(None))          # read-only node: no address of its own
+        else:
+            self.objs[a] = Cnt(a, self.partners_of(a), self.conf(a))
         self.dead.discard(a)
         self.inc[a] += 1
 
     def everyone(self):
-        return self.addrs + self.extra
+        return self.addrs + self.extra + self.ro
 
     def members_of(self, obj):
         return set(n.id for n in obj.otherNodes)
@@ -345,7 +367,8 @@ class E2Sim(object):
             claimed = nid
             if claimed != message['from']:
                 raise Violation('C14', 'misattributed', '%s received a probe of %s as coming from %s' % (me, message['from'], claimed))
-        if isinstance(node, TCPNode):
+        if isinstance(node, TCPNode) and transport._selfNode is not None:
+            # (members only: a read-only node has no address under which what was sent to it could be booked)
             known = set(n.id for n in obj.otherNodes)
             if nid not in known:
                 raise Violation('C14', 'message_from_non_member', '%s was handed a %s message as coming from %s, which is not one of its members'
@@ -572,6 +595,7 @@ class E2Sim(object):
                     stable = False
                 elif lead is None:
                     lead = ls[0]
+        self.stable_leader = lead if stable else None
         if stable and lead is not None:
             self.sit['stable_leader_window'] += 1
             self.probe_round('leader links', only=lead)
@@ -589,6 +613,8 @@ class E2Sim(object):
                 raise Violation('C14', 'not_reestablished', 'during %.1fs of healthy network these pairs were never connected on both sides: %r'
                                 % (3 * B, bad[:4]), n=len(bad))
         self.sit['reestablished_after_faults'] += 1
+        if self.ro:
+            self.readonly_check(B)
         if self.outsider in ('removed', 'ghost'):
             # the network is healthy: the removal goes through on every member; X (running with its old configuration, or
             # started only now) keeps dialling and being dialled by nobody - the monitors on every member watch
@@ -619,6 +645,36 @@ class E2Sim(object):
         if bad:
             self.settle(B)
         self.probe_round('second')
+
+    def readonly_check(self, B):
+        """Read-only nodes (no address: the member gives each incoming one an id of its own) after faults, kills and restarts
+        of some of them: every live one is connected to every member and stays so, and every member lists exactly them."""
+        live = [a for a in self.ro if a not in self.dead]
+        t0 = CLK.now
+        self.settle(B)
+        self.ro_disc = []
+        self.settle(B)
+        for a in self.addrs:
+            n = len(self.objs[a].readonlyNodes)
+            if n != len(live):
+                raise Violation('C14', 'readonly_nodes_miscounted', '%s lists %d read-only nodes after %.1fs of healthy network, %d are running'
+                                % (a, n, CLK.now - t0, len(live)), listed=n, running=len(live))
+        for r in live:
+            o = self.objs[r]
+            missing = [n.id for n in o.otherNodes if n.id in self.addrs and not o.isNodeConnected(n)]
+            if missing:
+                raise Violation('C14', 'not_reestablished', 'read-only node %s is not connected to %r after %.1fs of healthy network'
+                                % (r, missing, CLK.now - t0), n=len(missing), readonly=True)
+        # connections that carry traffic - those to a leader that was the only one all the time - must not have been closed
+        # (an idle link to a follower may be torn down and rebuilt: that is the listed idle-link finding)
+        ls = [a for a in self.addrs if self.objs[a]._isLeader()]
+        if len(ls) == 1 and self.stable_leader == ls[0]:
+            closed = [d for d in self.ro_disc if d[2] == ls[0]]
+            if closed:
+                raise Violation('C14', 'healthy_connection_closed', '%d connections of read-only nodes to the leader %s were closed during %.1fs of '
+                                'healthy network' % (len(closed), ls[0], B), readonly=True)
+            self.sit['readonly_leader_links_stable'] += 1
+        self.sit['readonly_nodes_checked'] += 1
 
     def probe_round(self, tag, only=None):
         nonce = len(self.probes) + 1
@@ -685,6 +741,12 @@ def gen_cfg_outsider(cfg, seed, i):
     r = random.Random(h32('e2x', seed, i))
     if random.Random(h32('e2poll', seed, i)).random() < 0.3:
         cfg['poller'] = 'select'          # conf.pollerType='select' (or a platform without poll): errors are not poll events
+    if random.Random(h32('e2ro', seed, i)).random() < 0.25:
+        cfg['n_ro'] = 2
+        # members with journal files here: if every member of a journal-less cluster has been restarted, terms start again at
+        # 0 and a read-only node that kept running ignores the new leaders for good (it never campaigns, so its higher term
+        # never spreads) - a consequence of losing all persistent state, not of the transport
+        cfg['journal'] = 'file'
     if r.random() < 0.34:
         cfg['outsider'] = r.choice(['stranger', 'removed', 'ghost', 'ghost'])
         cfg['x_host'] = r.choice([0, 9])          # smaller / greater than every member: X is dialled by / dials the members
